@@ -405,6 +405,13 @@ func (e *verifC23Env) class(r *verifC23Req) string {
 }
 
 func (e *verifC23Env) invalidate(times []int64, step int64) {
+	e.invMu.Lock()
+	defer e.invMu.Unlock()
+	e.invalidateLocked(times, step)
+}
+
+// invalidateLocked: the caller holds invMu
+func (e *verifC23Env) invalidateLocked(times []int64, step int64) {
 	sort.Slice(times, func(i, j int) bool { return times[i] < times[j] })
 	seen := map[int]bool{}
 	slots := []int{}
@@ -415,8 +422,6 @@ func (e *verifC23Env) invalidate(times []int64, step int64) {
 			slots = append(slots, s)
 		}
 	}
-	e.invMu.Lock()
-	defer e.invMu.Unlock()
 	e.mu.Lock()
 	e.nextInv++
 	i := e.nextInv
